@@ -1,8 +1,8 @@
 (* C04 — the RecoverHandler inside the timeout middleware: proofs.
 
-   The recovering LTS (Recover.rstep true) is reduced to the plain one: a run in which
+   The recovering LTS (Recover.rstep rs true) is reduced to the plain one: a run in which
    the work panicked at action [a] after executing [pre] is, from the recovery on, a
-   run of the script [pre ++ [WriteHeader 500]] — the invariant [Inv] of Proofs.v holds
+   run of the script [pre ++ rs], [rs] being the RecoverHandler's reply (any safe reply) — the invariant [Inv] of Proofs.v holds
    of the repaired state for THAT script, and every later step preserves it
    (Proofs.inv_step).  All outcome theorems of the plain LTS therefore carry over. *)
 From Coq Require Import List ZArith Bool Lia.
@@ -78,21 +78,44 @@ Proof.
     + destruct (dk s); try discriminate. intros H; inversion H; subst; cbn; auto.
 Qed.
 
-(* the recovery's own script cannot panic, and ends the handler *)
-Lemma recover_code_ok : bad_code recover_code = false.
-Proof. reflexivity. Qed.
+(* ------------------------------------------------------------------ *)
+(* everything below: for EVERY reply [rs] of the RecoverHandler that is safe *)
+Section Reply.
+Variable rs : list act.
+Hypothesis Hrs : safe_reply rs = true.
 
+(* a safe action never panics, whatever the state of the writer *)
+Lemma safe_act_no_panic to bw a p : safe_act a = true -> snd (hact to bw a) <> RPanic p.
+Proof.
+  destruct bw as [b w]. destruct a; cbn; try discriminate.
+  - intros Hc. destruct (bwrote b); cbn; [discriminate|].
+    destruct (bad_code c); [discriminate|]. destruct to; cbn; discriminate.
+  - intros _. destruct to; cbn; discriminate.
+Qed.
+
+(* the recovery's own script cannot panic; it only gets shorter *)
 Lemma h_step_recovering s s' r :
-  h_step s = Some (s', r) -> hrest s = recover_script \/ hrest s = [] ->
-  (forall p, hst s' <> HPanicked p) /\ hrest s' = [].
+  h_step s = Some (s', r) -> safe_reply (hrest s) = true ->
+  (forall p, hst s' <> HPanicked p) /\ safe_reply (hrest s') = true.
 Proof.
   unfold h_step. destruct (hst s); try discriminate.
-  intros H [E|E]; rewrite E in H.
-  - unfold recover_script in H. cbn in H.
-    destruct (bwrote (tb s)); cbn in H.
-    + inversion H; subst; cbn. split; [discriminate|reflexivity].
-    + destruct (tto s); cbn in H; inversion H; subst; cbn; (split; [discriminate|reflexivity]).
-  - inversion H; subst; cbn. split; [discriminate|reflexivity].
+  destruct (hrest s) as [|a rest] eqn:Er.
+  - intros H _. inversion H; subst; cbn. split; [discriminate|reflexivity].
+  - cbn [safe_reply forallb]. intros H Hs. apply andb_true_iff in Hs. destruct Hs as [Ha Hrest].
+    pose proof (safe_act_no_panic (tto s) (tb s, rw s) a) as Hnp.
+    destruct a; try discriminate Ha;
+      (destruct (hact (tto s) (tb s, rw s) _) as [[b' w'] res] eqn:Eact;
+       destruct res; inversion H; subst; cbn;
+       try (split; [discriminate|exact Hrest]);
+       exfalso; eapply Hnp; [exact Ha|cbn; reflexivity]).
+Qed.
+
+Lemma safe_reply_spec_panic fl : forall acts w, safe_reply acts = true -> spec_panic fl w acts = None.
+Proof.
+  induction acts as [|a acts IH]; intros w H; [reflexivity|].
+  cbn [safe_reply forallb] in H. apply andb_true_iff in H. destruct H as [Ha H].
+  destruct a; cbn in *; try discriminate; try (apply IH; exact H).
+  destruct w; [apply IH; exact H|]. destruct (bad_code c); [discriminate|apply IH; exact H].
 Qed.
 
 (* ------------------------------------------------------------------ *)
@@ -112,7 +135,7 @@ Qed.
 
 Lemma rec_cut_app fl : forall pre w r,
   spec_panic fl w pre = None ->
-  rec_cut fl w (pre ++ r) = pre ++ rec_cut fl (wrote_after fl w pre) r.
+  rec_cut rs fl w (pre ++ r) = pre ++ rec_cut rs fl (wrote_after fl w pre) r.
 Proof.
   induction pre as [|a pre IH]; intros w r H; [reflexivity|].
   destruct a; cbn in *; try (f_equal; apply IH; exact H); try discriminate.
@@ -120,14 +143,14 @@ Proof.
   destruct (bad_code c); [discriminate|]. f_equal. apply IH. exact H.
 Qed.
 
-Lemma rec_cut_nopanic fl : forall acts w, spec_panic fl w acts = None -> rec_cut fl w acts = acts.
+Lemma rec_cut_nopanic fl : forall acts w, spec_panic fl w acts = None -> rec_cut rs fl w acts = acts.
 Proof.
   intros acts w H. rewrite <- (app_nil_r acts) at 1. rewrite rec_cut_app by exact H.
   cbn. apply app_nil_r.
 Qed.
 
 Lemma rec_cut_head_panic fl w a rest p :
-  spec_panic fl w [a] = Some p -> rec_cut fl w (a :: rest) = recover_script.
+  spec_panic fl w [a] = Some p -> rec_cut rs fl w (a :: rest) = rs.
 Proof.
   destruct a; cbn; try discriminate; try reflexivity.
   destruct w; [discriminate|]. destruct (bad_code c); [reflexivity|discriminate].
@@ -135,27 +158,27 @@ Qed.
 
 Lemma rec_cut_at_panic fl pre a rest p :
   spec_panic fl false pre = None -> spec_panic fl false (pre ++ [a]) = Some p ->
-  rec_cut fl false (pre ++ a :: rest) = pre ++ recover_script.
+  rec_cut rs fl false (pre ++ a :: rest) = pre ++ rs.
 Proof.
   intros H1 H2. rewrite rec_cut_app by exact H1. f_equal.
   rewrite spec_panic_app, H1 in H2. eapply rec_cut_head_panic, H2.
 Qed.
 
 (* what rec_cut produces never panics *)
-Lemma rec_cut_safe fl : forall acts w, spec_panic fl w (rec_cut fl w acts) = None.
+Lemma rec_cut_safe fl : forall acts w, spec_panic fl w (rec_cut rs fl w acts) = None.
 Proof.
   induction acts as [|a acts IH]; intros w; [reflexivity|].
   destruct a; cbn; try apply IH.
   - destruct w; cbn; [apply IH|].
-    destruct (bad_code c) eqn:Eb; cbn; [reflexivity|]. rewrite Eb. apply IH.
-  - destruct w; reflexivity.
+    destruct (bad_code c) eqn:Eb; cbn; [apply safe_reply_spec_panic, Hrs|]. rewrite Eb. apply IH.
+  - apply safe_reply_spec_panic, Hrs.
 Qed.
 
 Lemma cut_rec_cut fl script ex d :
-  cut script ex d -> spec_panic fl false ex = None -> cut (rec_cut fl false script) ex d.
+  cut script ex d -> spec_panic fl false ex = None -> cut (rec_cut rs fl false script) ex d.
 Proof.
   intros (rest & E & H) Hp. subst script. rewrite rec_cut_app by exact Hp.
-  exists (rec_cut fl (wrote_after fl false ex) rest). split; [reflexivity|].
+  exists (rec_cut rs fl (wrote_after fl false ex) rest). split; [reflexivity|].
   destruct H as [H|H]; [left; subst rest; reflexivity|right; exact H].
 Qed.
 
@@ -170,20 +193,20 @@ Definition RInv (s : state) : Prop :=
   (Inv fl h0 script s \/
    exists pre a rest,
      script = pre ++ a :: rest /\
-     Inv fl h0 (pre ++ recover_script) s /\
-     (hrest s = recover_script \/ hrest s = []) /\
-     (tto s = false -> rec_cut fl false script = pre ++ recover_script)).
+     Inv fl h0 (pre ++ rs) s /\
+     safe_reply (hrest s) = true /\
+     (tto s = false -> rec_cut rs fl false script = pre ++ rs)).
 
 Lemma rinv_init : RInv (init fl h0 script).
 Proof. split; [cbn; discriminate|left; apply inv_init]. Qed.
 
-Lemma rec_fix_id s : (forall p, hst s <> HPanicked p) -> rec_fix s = s.
+Lemma rec_fix_id s : (forall p, hst s <> HPanicked p) -> rec_fix rs s = s.
 Proof. unfold rec_fix. destruct (hst s); auto. intros H. exfalso. eapply H; reflexivity. Qed.
 
 Lemma stepT_of_step s e s' r : step s e = Some (s', r) -> stepT s e = s'.
 Proof. unfold stepT. intros ->. reflexivity. Qed.
 
-Lemma rinv_step s e : RInv s -> RInv (rstepT true s e).
+Lemma rinv_step s e : RInv s -> RInv (rstepT rs true s e).
 Proof.
   intros [Hn HI]. unfold rstepT, rstep.
   destruct (step s e) as [[s' r]|] eqn:Es; [|split; assumption].
@@ -197,7 +220,7 @@ Proof.
     + right. exists pre, a, rest. split; [exact E|]. split; [rewrite <- ET; apply inv_step, HI|].
       split.
       * destruct e as [|k|b].
-        -- right. eapply h_step_recovering; eauto.
+        -- eapply h_step_recovering; eauto.
         -- destruct (step_nonH_handler s (ED k) s' r) as [_ R]; [discriminate|exact Es|]. rewrite R. exact Hr.
         -- destruct (step_nonH_handler s (ES b) s' r) as [_ R]; [discriminate|exact Es|]. rewrite R. exact Hr.
       * intros T. apply Hc. eapply step_tto_mono; eauto.
@@ -209,7 +232,7 @@ Proof.
     + right. exists pre, a, rest. split; [exact E|]. split; [rewrite <- ET; apply inv_step, HI|].
       split.
       * destruct e as [|k|b].
-        -- right. eapply h_step_recovering; eauto.
+        -- eapply h_step_recovering; eauto.
         -- destruct (step_nonH_handler s (ED k) s' r) as [_ R]; [discriminate|exact Es|]. rewrite R. exact Hr.
         -- destruct (step_nonH_handler s (ES b) s' r) as [_ R]; [discriminate|exact Es|]. rewrite R. exact Hr.
       * intros T. apply Hc. eapply step_tto_mono; eauto.
@@ -226,8 +249,8 @@ Proof.
     2:{ (* after a recovery nothing panics any more *)
         exfalso. destruct (h_step_recovering _ _ _ Es Hr) as [Hnp _]. eapply Hnp, Eh'. }
     (* the repaired state is [s] with the recovery's script to run *)
-    assert (EF : rec_fix s' =
-                 mkSt (tb s) (tto s) (rw s) HRun recover_script (hexec s) (dk s) (sst s) (sexec s)).
+    assert (EF : rec_fix rs s' =
+                 mkSt (tb s) (tto s) (rw s) HRun rs (hexec s) (dk s) (sst s) (sexec s)).
     { unfold rec_fix. rewrite Eh'. rewrite Es'. cbn. rewrite removelast_last. reflexivity. }
     rewrite EF. split; [cbn; discriminate|].
     pose proof (inv_step fl h0 script s EH HI) as HI'. rewrite ET in HI'.
@@ -240,7 +263,7 @@ Proof.
       * unfold InvA in *. cbn. intros T. specialize (A T). rewrite Eh in A. exact A.
       * unfold InvB. cbn. left. reflexivity.
       * unfold InvC in *. cbn. destruct (sst s); try exact C; destruct C as (_ & C & _); rewrite Eh in C; discriminate.
-    + left. reflexivity.
+    + cbn. exact Hrs.
     + cbn. intros T. rewrite Escr.
       unfold InvA in A, A'. specialize (A T). rewrite Eh in A. destruct A as [_ A2]. cbn in A2.
       assert (T' : tto s' = false) by (rewrite Es'; exact T).
@@ -250,13 +273,13 @@ Proof.
       eapply rec_cut_at_panic; eauto.
 Qed.
 
-Lemma rinv_run sched : forall s, RInv s -> RInv (rrun true s sched).
+Lemma rinv_run sched : forall s, RInv s -> RInv (rrun rs true s sched).
 Proof.
   induction sched as [|e sched IH]; intros s H; [exact H|].
   cbn. apply IH, rinv_step, H.
 Qed.
 
-Lemma rinv_reach sched : RInv (rrun true (init fl h0 script) sched).
+Lemma rinv_reach sched : RInv (rrun rs true (init fl h0 script) sched).
 Proof. apply rinv_run, rinv_init. Qed.
 
 End RInv.
@@ -267,14 +290,14 @@ End RInv.
 (* the scripts the recovered work can amount to: the script itself, or what it had
    executed when it panicked, then WriteHeader(500) *)
 Definition rec_variant (script script' : list act) : Prop :=
-  script' = script \/ exists pre a rest, script = pre ++ a :: rest /\ script' = pre ++ recover_script.
+  script' = script \/ exists pre a rest, script = pre ++ a :: rest /\ script' = pre ++ rs.
 
 Lemma all_or_nothing_recover_lemma fl h0 script sched :
-  let s := rrun true (init fl h0 script) sched in
+  let s := rrun rs true (init fl h0 script) sched in
   (forall p, sst s <> SPanicRet p) /\
   (exists script', rec_variant script script' /\ outcome fl h0 script' s) /\
   (sst s = SDoneRet ->
-   exists ex, cut (rec_cut fl false script) ex (dk s) /\ spec_panic fl false ex = None /\
+   exists ex, cut (rec_cut rs fl false script) ex (dk s) /\ spec_panic fl false ex = None /\
               rw s = complete fl h0 ex).
 Proof.
   intros s. destruct (rinv_reach fl h0 script sched) as [Hn HI]. fold s in Hn, HI.
@@ -288,7 +311,7 @@ Proof.
         try (rewrite Ed in E1; discriminate).
       exists ex. split; [apply cut_rec_cut; assumption|]. split; assumption.
   - split; [eapply NP, HI|]. split.
-    + exists (pre ++ recover_script). split; [right; exists pre, a, rest; split; [exact E|reflexivity]|].
+    + exists (pre ++ rs). split; [right; exists pre, a, rest; split; [exact E|reflexivity]|].
       apply inv_outcome, HI.
     + intros Ed. pose proof HI as (_ & _ & C). unfold InvC in C. rewrite Ed in C. destruct C as (T & _).
       destruct (inv_outcome _ _ _ _ HI) as [E1 _|ex E1 E2 E3 E4 E5 E6|k pre' E1|p E1];
@@ -299,9 +322,9 @@ Qed.
 (* the timeout branch stays enabled from the Done event on, whatever the work and its
    recovery are doing, and consumes no handler action *)
 Lemma returns_at_deadline_recover_lemma fl h0 script sched k :
-  let s := rrun true (init fl h0 script) sched in
+  let s := rrun rs true (init fl h0 script) sched in
   dk s = Some k -> sst s = SWait ->
-  exists s', rstep true s (ES BTimeout) = Some (s', RNone) /\ sst s' = STimeoutRet k /\
+  exists s', rstep rs true s (ES BTimeout) = Some (s', RNone) /\ sst s' = STimeoutRet k /\
              rw s' = timeout_write k (rw s) /\ hst s' = hst s /\ hrest s' = hrest s.
 Proof.
   intros s Hd Hs. destruct (rinv_reach fl h0 script sched) as [Hn _]. fold s in Hn.
@@ -310,19 +333,21 @@ Proof.
 Qed.
 
 (* without a RecoverHandler the recovering LTS is the plain one *)
-Lemma rrun_plain sched : forall s, rrun false s sched = run s sched.
+Lemma rrun_plain sched : forall s, rrun rs false s sched = run s sched.
 Proof.
   unfold rrun, run. induction sched as [|e sched IH]; intros s; [reflexivity|]. cbn.
-  replace (rstepT false s e) with (stepT s e); [apply IH|].
+  replace (rstepT rs false s e) with (stepT s e); [apply IH|].
   unfold rstepT, rstep, stepT. destruct (step s e) as [[s' r]|]; reflexivity.
 Qed.
 
 (* the executable description used by the checker agrees with the reference semantics *)
 Lemma rec_cut_is_reference fl h0 acts :
-  snd (href (start fl h0) (rec_cut fl false acts)) = None.
+  snd (href (start fl h0) (rec_cut rs fl false acts)) = None.
 Proof. rewrite script_panic_spec. apply rec_cut_safe. Qed.
 
 Lemma rec_cut_safe_and_neutral fl acts w :
-  spec_panic fl w (rec_cut fl w acts) = None /\
-  (spec_panic fl w acts = None -> rec_cut fl w acts = acts).
+  spec_panic fl w (rec_cut rs fl w acts) = None /\
+  (spec_panic fl w acts = None -> rec_cut rs fl w acts = acts).
 Proof. split; [apply rec_cut_safe|apply rec_cut_nopanic]. Qed.
+
+End Reply.
